@@ -34,6 +34,11 @@ const Type& MAXExpression::type(Context &ctx) const
   const Type& t1 = _args[1]->type(ctx);
   if (t0 == Type::INTEGER && t1 == Type::INTEGER)
     return Value::type_integer;
+  if (t0 == Type::NUMERIC || t1 == Type::NUMERIC)
+    return Value::type_numeric;
+  /* an opaque argument: integer or decimal at run time */
+  if (t0 == Type::NO_TYPE || t1 == Type::NO_TYPE)
+    return Value::type_no_type;
   return Value::type_numeric;
 }
 
